@@ -192,7 +192,10 @@ def gen_empty_dir_scenario(rng, k: int):
         d["opts"].update(rtol=None, atol=None, incl=None, excl=None, read_as=[cs.DSV_READER])
         for f in d["files"]:
             if f["sc"] is not None:
-                f["sc"].update(rtol=None, atol=None, incl=None, excl=None, read_as=[cs.DSV_READER])
+                # (a "garbage" file is modelled for the sniffing reader only — `cs.gen_dir_scenario` damages files only
+                #  when no reader is named; with the reader named here the damage is taken back)
+                f["sc"].update(rtol=None, atol=None, incl=None, excl=None, read_as=[cs.DSV_READER], damage=[None, None])
+        tags[:] = [t for t in tags if t != "file-damage-garbage"]
         tags.append("empty-plain")
     both = [f for f in d["files"] if f["where"] == "both" and f["sc"]["damage"] == [None, None]]
     if not both:
